@@ -2,6 +2,8 @@ package state
 
 import (
 	"sync"
+
+	"github.com/mutagen-io/mutagen/pkg/verif"
 )
 
 // TrackingLock provides locking facilities with automatic state tracking
@@ -22,6 +24,7 @@ func NewTrackingLock(tracker *Tracker) *TrackingLock {
 
 // Lock locks the tracking lock.
 func (l *TrackingLock) Lock() {
+	verif.Yield("trackinglock.lock")
 	l.lock.Lock()
 }
 
